@@ -1,6 +1,8 @@
 from vlib import runner, sysprops
 
-PARTIAL = []
+PARTIAL = [
+    "monitor-acceptance is proved for the server model's traces (Lemmas/ServerTrace.lean); id re-use right after cancel/expiry is outside the quantifier",
+]
 
 
 def run(tier, seed, replay):
